@@ -5,6 +5,7 @@ import Dnp3.Driver.Convert
 import Dnp3.Driver.Parse
 import Dnp3.Driver.Ffi
 import Dnp3.Driver.Db
+import Dnp3.Driver.Master
 open Dnp3 Dnp3.Driver
 
 partial def loop {σ : Type} (h : IO.FS.Stream) (out : IO.FS.Stream) (step : σ → String → σ × List String) (s : σ) : IO Unit := do
@@ -27,6 +28,7 @@ def main (args : List String) : IO UInt32 := do
   | ["transport"] => loop stdin stdout transportStep TState.init; return 0
   | ["outstation"] => loop stdin stdout outstationStep {}; return 0
   | ["convert"] => loop stdin stdout convertStep (CState.init 100 2048 false); return 0
+  | ["master"] => loop stdin stdout masterStep {}; return 0
   | ["parse"] => loop stdin stdout parseStep (); return 0
   | ["ffi"] => loop stdin stdout ffiStep (); return 0
   | ["db"] => loop stdin stdout Dnp3.Driver.DbEngine.dbStep ({} : Dnp3.Driver.DbEngine.DbState); return 0
